@@ -498,9 +498,12 @@ impl TransformerContext {
 
     /// Register an element ahead of its evaluation, so it is available as a `reuse`
     /// target, but not (yet) as the target of a reference. Returns the id used.
-    pub fn register_pending(&mut self, el: &SvgElement) -> Option<String> {
+    pub fn register_pending(&mut self, el: &mut SvgElement) -> Option<String> {
         let id = el.get_attr("id")?;
         let id = eval_attr(&id, self).unwrap_or(id);
+        // The element keeps the evaluated id, so that an expression in it is
+        // evaluated once rather than again with the element's other attributes.
+        el.set_attr("id", &id);
         self.update_element(el);
         self.pending_ids.insert(id.clone());
         Some(id)
